@@ -166,18 +166,23 @@ def lhsOutsOf (card : Card) (j : Join) : Nat → List Nat :=
 def rhsOutsOf (card : Card) (j : Join) : Nat → List Nat :=
   fun id => if card == .oneToMany then (j.highIdx.getD id none).toList else j.lowIdx.getD id []
 
+/-- the two nested loops of a pass: for every sample of `xs`, for every output slot it maps to -/
+def innerFold {σ : Type} (stepf : σ → Nat → V → Except Err σ) (xv : V) (os : List Nat)
+    (acc : Except Err σ) : Except Err σ :=
+  os.foldl (fun acc o => match acc with | .error e => .error e | .ok st => stepf st o xv) acc
+
+def outerFold {σ : Type} (stepf : σ → Nat → V → Except Err σ) (outsOf : Nat → List Nat)
+    (xs : IdVec V) (acc : Except Err σ) : Except Err σ :=
+  xs.foldl (fun acc x => match acc with | .error e => .error e | .ok st => innerFold stepf x.2 (outsOf x.1) (.ok st)) acc
+
+/-- one left-hand sample into slot `o` -/
+def lhsStep (card : Card) (slots : List (Nat × V)) (o : Nat) (xv : V) : Except Err (List (Nat × V)) :=
+  if card != .manyToOne && slots.any (·.1 == o) then .error .manyToMany
+  else .ok (slots ++ [(o, xv)])
+
 /-- pass 1: left-hand samples fill output slots -/
 def lhsPass (card : Card) (j : Join) (lhs : IdVec V) : Except Err (List (Nat × V)) :=
-  lhs.foldl (fun acc x =>
-    match acc with
-    | .error e => .error e
-    | .ok slots =>
-      (lhsOutsOf card j x.1).foldl (fun acc o =>
-        match acc with
-        | .error e => .error e
-        | .ok slots =>
-          if card != .manyToOne && slots.any (·.1 == o) then .error .manyToMany
-          else .ok (slots ++ [(o, x.2)])) (.ok slots)) (.ok [])
+  outerFold (lhsStep card) (lhsOutsOf card j) lhs (.ok [])
 
 /-- for many-to-one a later left sample overwrites an earlier one in the same slot -/
 def slotValOf (slots : List (Nat × V)) : Nat → Option V :=
@@ -198,14 +203,6 @@ def vbStep (op : String) (bool : Bool) (card : Card) (slotVal : Nat → Option V
         if bool then .ok (out ++ [(o, ofBool keep)], seen)
         else if keep then .ok (out ++ [(o, value)], seen)
         else .ok (out, seen)
-
-def innerFold (stepf : JState V → Nat → V → Except Err (JState V)) (xv : V) (os : List Nat)
-    (acc : Except Err (JState V)) : Except Err (JState V) :=
-  os.foldl (fun acc o => match acc with | .error e => .error e | .ok st => stepf st o xv) acc
-
-def outerFold (stepf : JState V → Nat → V → Except Err (JState V)) (outsOf : Nat → List Nat)
-    (rhs : IdVec V) (acc : Except Err (JState V)) : Except Err (JState V) :=
-  rhs.foldl (fun acc x => match acc with | .error e => .error e | .ok st => innerFold stepf x.2 (outsOf x.1) (.ok st)) acc
 
 def engVectorBinop (op : String) (bool : Bool) (card : Card) (j : Join) (lhs rhs : IdVec V) :
     Except Err (IdVec V) :=
